@@ -6,6 +6,7 @@ import (
 	"os"
 	"os/exec"
 	"sort"
+	"strconv"
 	"strings"
 	"sync"
 	"time"
@@ -37,6 +38,8 @@ var c14Templates = []struct{ name, src string }{
 	{"partial", `<%= partial("p", {"w": x}) %>`},
 	{"content", `<% contentFor("c") { %>[<%= x %>]<% } %><%= contentOf("c") %>`},
 	{"block", `<%= blk() { %>b<%= x %><% } %>`},
+	{"partial-with-escaped-quotes", `<%= partial(pname) %>`},
+	{"pathfor", `<%= pathFor(car) %>|<%= pathFor([car]) %>`},
 	{"helper-defaults", `<%= opt(x) %>|<%= optb(x) { %>b<% } %>|<%= opt(x + 1) %>`},
 	{"operators", `<%= sv ~= "^a" %>,<%= sv ~= "b$" %>,<%= x * 2 - 1 %>,<%= sv + "!" %>,<%= x > 15 && sv == "ab" %>`},
 }
@@ -48,6 +51,8 @@ func c14Data(i int) map[string]interface{} {
 		"animal": c13Animals[i%2],
 		"sv":     []string{"ab", "ba", "aa", "bb"}[i%4],
 		"st":     &Person{Name: fmt.Sprint("N", i), Kids: []Person{{Name: fmt.Sprint("K", i)}}},
+		"pname":  fmt.Sprint("q", i),
+		"car":    &c14Car{ID: 100 + i},
 	}
 }
 
@@ -59,7 +64,13 @@ func c14SetData(c *plush.Context, i int) {
 
 func c14Base() *plush.Context {
 	c := plush.NewContext()
-	c.Set("partialFeeder", func(name string) (string, error) { return `{<%= w %>}`, nil })
+	c.Set("partialFeeder", func(name string) (string, error) {
+		if strings.HasPrefix(name, "q") {
+			// the partial's text is lexed while the template executes; its string literals contain escaped quotes
+			return `<%= "\"` + name + ` says \"hi\" to \"` + name + `\"\"" %>|<%= "` + name + `" + "\"" %>`, nil
+		}
+		return `{<%= w %>}`, nil
+	})
 	c.Set("blk", func(help plush.HelperContext) (string, error) { return help.Block() })
 	// helpers that write defaults into the options map they were handed (the call sites omit it)
 	c.Set("opt", func(v int, o map[string]interface{}) string {
@@ -74,6 +85,9 @@ func c14Base() *plush.Context {
 	return c
 }
 
+// c14Car has an ID: pathFor builds a path from its type name (a per-type table inside the helper)
+type c14Car struct{ ID int }
+
 type c14Res struct{ out, err string }
 
 type c14Scenario struct {
@@ -82,7 +96,27 @@ type c14Scenario struct {
 	setup func(n int) (bodies []func(), res []c14Res, want []c14Res, cleanup func())
 }
 
+// c14Lazy (free-running pass only): the solo results are computed AFTER the concurrent phase, so that the
+// concurrent executions are the first ones of the process and meet every lazily built table cold.
+var c14Lazy bool
+
 func c14Solo(src string, i int) c14Res {
+	if c14Lazy {
+		return c14Res{"\x00lazy", fmt.Sprintf("%d\x00%s", i, src)}
+	}
+	return c14SoloNow(src, i)
+}
+
+func c14Resolve(w c14Res) c14Res {
+	if w.out != "\x00lazy" {
+		return w
+	}
+	is, src, _ := strings.Cut(w.err, "\x00")
+	i, _ := strconv.Atoi(is)
+	return c14SoloNow(src, i)
+}
+
+func c14SoloNow(src string, i int) c14Res {
 	plush.CacheEnabled = false
 	c := c14Base()
 	c14SetData(c, i)
@@ -382,7 +416,7 @@ func init() {
 			return s
 		},
 		Run:  c14Run,
-		Rule: "Part A — schedules: real plush code (overlay: scheduling points at every function entry/loop head of the root package and at every mutex operation, sync replaced by a scheduler-aware shim) run under a cooperative scheduler; ALL interleavings with at most B preemptions are enumerated depth-first (choice-prefix replay; replay divergence is a hard error) for: one parsed template executed by 2 threads with own root contexts / with children of one shared parent (14 templates, one per construct class, different data per thread), Render of the same text with a cold cache, Parse vs CacheSet, a contentFor block stored on the shared parent by an earlier execution and run by contentOf in the children at the same time, + on a slice with spare capacity held by the shared parent; oracle: every thread's (out, err) equals its solo result, no deadlock, no panic. Context operations: every pair of 2-operation threads over {Set(k,1), Set(k,2), Value(k), Has(k), Set(j,5), Value(j)} on one context with UNBOUNDED preemptions (as long as the scenario has at most 30 scheduling points, which holds on the unchanged tree; otherwise the largest bound fitting the budget); every recorded call/return history must be linearizable w.r.t. a sequential map (brute force); New() racing with Set/Value with bound 1. Part B — data races: the same scenario bodies free-running with 2, 8 and 32 goroutines in a separate -race build, repeated; any race report or 'concurrent map' fatal error is a violation attributed to the scenario. Non-trivial: all scenarios (>=2 threads).",
+		Rule: "Part A — schedules: real plush code (overlay: scheduling points at every function entry/loop head of the root package and at every mutex operation, sync replaced by a scheduler-aware shim) run under a cooperative scheduler; ALL interleavings with at most B preemptions are enumerated depth-first (choice-prefix replay; replay divergence is a hard error) for: one parsed template executed by 2 threads with own root contexts / with children of one shared parent (16 templates, one per construct class, different data per thread), Render of the same text with a cold cache, Parse vs CacheSet, a contentFor block stored on the shared parent by an earlier execution and run by contentOf in the children at the same time, + on a slice with spare capacity held by the shared parent; oracle: every thread's (out, err) equals its solo result, no deadlock, no panic. Context operations: every pair of 2-operation threads over {Set(k,1), Set(k,2), Value(k), Has(k), Set(j,5), Value(j)} on one context with UNBOUNDED preemptions (as long as the scenario has at most 30 scheduling points, which holds on the unchanged tree; otherwise the largest bound fitting the budget); every recorded call/return history must be linearizable w.r.t. a sequential map (brute force); New() racing with Set/Value with bound 1. Part B — data races: the same scenario bodies free-running (the concurrent phase comes first in each process, solo results are computed afterwards, so lazily built tables are met cold) with 2, 8 and 32 goroutines in a separate -race build, repeated; any race report or 'concurrent map' fatal error is a violation attributed to the scenario. Non-trivial: all scenarios (>=2 threads).",
 		Bound: func(th bool) string {
 			if th {
 				return "Part A: per scenario the largest preemption bound b with n^(b+1)/b! <= 2e8 scheduling points (n = points of the default schedule; reported per case, typically 2-3), 2 and 3 threads; context ops unbounded for 2 threads x 2 ops and 3 threads x 1 op, bound 3 for 3 threads (2+1+1 ops); Part B: 200 repetitions x {2,8,32} goroutines"
@@ -647,12 +681,14 @@ func RunRaceScenario(name string, goroutines, reps int) string {
 			continue
 		}
 		for r := 0; r < reps; r++ {
+			c14Lazy = true
 			bodies, res, want, cleanup := s.setup(goroutines)
+			c14Lazy = false
 			c14FreeRun(bodies)
 			cleanup()
 			for i := range res {
-				if res[i] != want[i] {
-					return fmt.Sprintf("goroutine %d returned %+v, alone it returns %+v", i, res[i], want[i])
+				if w := c14Resolve(want[i]); res[i] != w {
+					return fmt.Sprintf("goroutine %d returned %+v, alone it returns %+v", i, res[i], w)
 				}
 			}
 		}
